@@ -15,8 +15,8 @@ CHECKS = {
 }
 
 CHECKS["C17"] = dict(
-    technique="structural invariants asserted on the real lexer's token lists, on every token reachable from the parsed tree and on every raised error's token (tiling, span re-lex, nesting/order, position bounds, context() text agreement)",
-    text="Exploration: ~9e4 (quick) sources — corpus templates, their mutants, comment/raw/unicode insertions at token boundaries and random fragment concatenations — are tokenized and parsed by the real code; the monitor asserts exact tiling, that each span re-lexes to the same token, nesting and order of expression tokens, and that every error position and context() line refer to the text at that offset.",
+    technique="structural invariants asserted on the real lexer's token lists, on every token reachable from the parsed tree and on every raised error's token (tiling, span re-lex, path re-lex, nesting/order, position bounds, context() text agreement, line numbers of extracted translation messages), under the default configuration and shorthand_indexes=True",
+    text="Exploration: ~9e4 (quick) sources — corpus templates, their mutants, comment/raw/unicode insertions at token boundaries and random fragment concatenations — are tokenized and parsed by the real code; the monitor asserts exact tiling, that each span re-lexes to the same token, nesting and order of expression tokens, and that every error position and context() line refer to the text at that offset; every path token's span must scan alone to the same path; ~3e3 multi-line sources with uniquely named translatable literals check that each extracted message's line is the line of its literal (filters) or of its tag.",
     note="Trusted: the harness's own slicing/re-lexing logic. A position == len(source) counts as inside; -1 on EOI/error tokens is the 'no position' sentinel.",
     ref="4/C17",
 )
@@ -36,7 +36,7 @@ CHECKS["C13"] = dict(
 )
 CHECKS["C18"] = dict(
     technique="metamorphic runtime oracle on real renders: all/sampled assignments of whitespace-control markers x default_trim x blank-block suppression compared modulo whitespace with the marker-free render; verbatim text checked against the reference interpreter",
-    text="Exploration: ~4e5 (quick) real renders; for each generated program every assignment of {none,-,~,+} to its marker positions (exhaustive when <= 6 positions, sampled beyond) under default_trim in {+,-,~} and suppression on/off must equal the marker-free output once str.isspace() characters are deleted; with no trimming in force the output must equal the reference text character for character.",
+    text="Exploration: ~4e5 (quick) real renders; for each generated program every assignment of {none,-,~,+} to its marker positions (exhaustive when <= 6 positions, sampled beyond) under default_trim in {+,-,~} and suppression on/off must equal the marker-free output once str.isspace() characters are deleted, and (all assignments of exhaustive programs, a quarter of the sampled ones; ~2.8e5 in quick) must equal character for character the reference text in which each marker trims only the text adjacent to its own markup; a bounded-exhaustive family of blank/non-blank nests prints the state assigned, captured and counted inside suppressed blocks; a look-alike family keeps `{#`, `{`, `#}`, `}}`, `%}` that are not markup inside literal text.",
     note="Trusted: the emitter's marker placement and the shared generator profile (expressions never inspect captured text; captured variables are only printed).",
     ref="4/C18",
 )
